@@ -1035,3 +1035,62 @@ Proof. intros H1 H2. apply (chk_model sc k H1 1%Z cs H2). Qed.
 Theorem chk_C07_model_all sc k cs :
   wf_script k sc = true -> forallb (wf_call k) cs = true -> chk_run sc k 7 cs = 0%Z.
 Proof. intros H1 H2. apply (chk_model sc k H1 7%Z cs H2). Qed.
+
+(* ---------------- reward conservation, one step, readable form ----------------
+   Accumulate-and-reset: [s_pend] holds per agent what accrued since its accumulator was last
+   read.  An accepted step adds the step's accruals, then every reported agent receives exactly
+   what is pending for it, its accumulator is read exactly once (the read log grows by the
+   reported keys, in order) and is zero afterwards; nothing is read for anybody else, whose
+   pending amount is kept.  Hence delivered + pending = accrued is an invariant (the checker
+   keeps the two running totals as ghost state: clauses 110/111). *)
+Lemma nth_set_nth_other l : forall i j v, j <> i -> nth j (set_nth l i v) 0%Z = nth j l 0%Z.
+Proof.
+  induction l as [|x l IH]; intros i j v Hne; [reflexivity|].
+  destruct i as [|i]; destruct j as [|j]; simpl; try reflexivity; [lia|]. apply IH. lia.
+Qed.
+
+Lemma nth_zero_at_notin a ks : forall q, ~ In a ks -> nth a (zero_at q ks) 0%Z = nth a q 0%Z.
+Proof.
+  induction ks as [|c ks IH]; intros q Hn; [reflexivity|].
+  change (zero_at q (c :: ks)) with (zero_at (set_nth q c 0%Z) ks).
+  rewrite IH by (intros C; apply Hn; right; exact C).
+  apply nth_set_nth_other. intros E. apply Hn. left. symmetry. exact E.
+Qed.
+
+Lemma nth_zero_at_in a ks : forall q, In a ks -> a < length q -> nth a (zero_at q ks) 0%Z = 0%Z.
+Proof.
+  induction ks as [|c ks IH]; intros q Ha Hl; [destruct Ha|].
+  change (zero_at q (c :: ks)) with (zero_at (set_nth q c 0%Z) ks).
+  destruct (in_dec Nat.eq_dec a ks) as [Hin|Hn].
+  - apply IH; [exact Hin|]. rewrite length_set_nth. exact Hl.
+  - destruct Ha as [->|Ha]; [|contradiction]. rewrite (nth_zero_at_notin a ks _ Hn).
+    rewrite nth_set_nth by exact Hl. rewrite Nat.eqb_refl. reflexivity.
+Qed.
+
+Theorem reward_conservation_step sc k m acts sh o m' :
+  k <> MTurnPrefix -> ss_do_call sc k m (CStep acts sh) = (ROut o, m') ->
+  NoDup (keys o) -> (forall a, In a (keys o) -> a < length (s_pend (m_sim m))) ->
+  let p1 := add_lists (s_pend (m_sim m)) (r_acc (row_at sc (S (s_t (m_sim m))))) in
+  o_rew o = map (fun a => (a, nth a p1 0%Z)) (keys o) /\
+  (forall a, In a (keys o) -> nth a (s_pend (m_sim m')) 0%Z = 0%Z) /\
+  (forall a, ~ In a (keys o) -> nth a (s_pend (m_sim m')) 0%Z = nth a p1 0%Z) /\
+  s_reads (m_sim m') = s_reads (m_sim m) ++ keys o.
+Proof.
+  intros Hk H ND Hlt. cbv zeta.
+  pose proof (model_step sc k m acts sh o m' Hk H) as MS. cbv zeta in MS.
+  destruct MS as (_ & (Oobs & Orew & _ & _) & (_ & Tp & _ & Trd) & _).
+  set (ks := exp_keys sc k (S (s_t (m_sim m))) (m_done m) (m_ptr m)) in *.
+  assert (Hkeys : keys o = ks).
+  { unfold keys. rewrite Oobs, map_map. cbn. apply map_id. }
+  rewrite Hkeys in *.
+  change (s_pend (ss_step sc (m_sim m) match k with MAll => sh | _ => acts end))
+    with (add_lists (s_pend (m_sim m)) (r_acc (row_at sc (S (s_t (m_sim m)))))) in *.
+  change (s_reads (ss_step sc (m_sim m) match k with MAll => sh | _ => acts end))
+    with (s_reads (m_sim m)) in Trd.
+  set (p1 := add_lists (s_pend (m_sim m)) (r_acc (row_at sc (S (s_t (m_sim m)))))) in *.
+  assert (Lp1 : length p1 = length (s_pend (m_sim m))) by apply length_add_lists.
+  split; [rewrite Orew; apply rews_nodup; [exact ND|rewrite Lp1; exact Hlt]|].
+  split; [|split; [|exact Trd]].
+  - intros a Ha. rewrite Tp. apply nth_zero_at_in; [exact Ha|]. rewrite Lp1. apply Hlt, Ha.
+  - intros a Hn. rewrite Tp. apply nth_zero_at_notin, Hn.
+Qed.
